@@ -569,3 +569,180 @@ def unroll_name_loops_repo(repo) -> int:
         if isinstance(f, FuncInfo) and f.outer is None:
             n += unroll_name_loops_function(f.node)
     return n
+
+
+# --------------------------------------------------------------------------- C8: straight-line re-assignment
+def merge_reassignments_function(fn) -> int:
+    """C8: ``x = E1`` directly followed (same block) by ``x = E2`` where E2 reads ``x`` exactly once
+    becomes ``x = E2[x := E1]`` - the intermediate value had no other reader."""
+    from .astutil import clone
+
+    changed = 0
+
+    def single_name_target(st):
+        if isinstance(st, ast.Assign) and len(st.targets) == 1 and isinstance(st.targets[0], ast.Name):
+            return st.targets[0].id
+        if isinstance(st, ast.AnnAssign) and st.value is not None and isinstance(st.target, ast.Name):
+            return st.target.id
+        return None
+
+    def rewrite(stmts):
+        nonlocal changed
+        for st in stmts:
+            if not isinstance(st, (ast.FunctionDef, ast.AsyncFunctionDef, ast.ClassDef)):
+                for fld, lst in list(_blocks(st)):
+                    setattr(st, fld, rewrite(lst))
+                if isinstance(st, ast.Try):
+                    for h in st.handlers:
+                        h.body = rewrite(h.body)
+        out = []
+        for st in stmts:
+            prev = out[-1] if out else None
+            nm = single_name_target(st)
+            if prev is not None and nm is not None and single_name_target(prev) == nm:
+                uses = [n for n in ast.walk(st.value) if isinstance(n, ast.Name) and n.id == nm and isinstance(n.ctx, ast.Load)]
+                inner_scopes = any(isinstance(n, (ast.Lambda, ast.ListComp, ast.SetComp, ast.DictComp, ast.GeneratorExp)) for n in ast.walk(st.value))
+                if len(uses) == 1 and not inner_scopes and nm not in {n.id for n in ast.walk(prev.value) if isinstance(n, ast.Name)}:
+                    target_id = id(uses[0])
+
+                    class S(ast.NodeTransformer):
+                        def visit_Name(self, n):
+                            if id(n) == target_id:
+                                return ast.copy_location(clone(prev.value), n)
+                            return n
+
+                    st.value = S().visit(st.value)
+                    if isinstance(prev, ast.AnnAssign) and isinstance(st, ast.Assign):
+                        st = ast.copy_location(ast.AnnAssign(target=prev.target, annotation=prev.annotation, value=st.value, simple=1), st)
+                    out[-1] = st
+                    changed += 1
+                    continue
+            out.append(st)
+        return out
+
+    fn.body = rewrite(fn.body)
+    if changed:
+        ast.fix_missing_locations(fn)
+        par = getattr(fn, "_parent", None)
+        set_parents(fn)
+        fn._parent = par
+    return changed
+
+
+def merge_reassignments_repo(repo) -> int:
+    n = 0
+    for f in list(repo.funcs.values()):
+        if isinstance(f, FuncInfo) and f.outer is None:
+            n += merge_reassignments_function(f.node)
+    return n
+
+
+# --------------------------------------------------------------------------- C9: index loops
+def index_loops_function(fn) -> int:
+    """C9: ``for i in range(len(A))`` / ``for i in range(min(len(A), len(B), ..))`` whose body reads the
+    sequences only as ``A[i]`` (``i`` and the sequences not re-bound in the body) becomes
+    ``for i, a in enumerate(A)`` / ``for i, (a, b) in enumerate(zip(A, B))`` with the element names
+    substituted - the same elements in the same order."""
+    from .astutil import clone
+    from .index import dotted, norm
+
+    changed = 0
+    counter = [0]
+
+    def seqs_of(it):
+        if not (isinstance(it, ast.Call) and isinstance(it.func, ast.Name) and it.func.id == "range" and len(it.args) == 1 and not it.keywords):
+            return None
+        a = it.args[0]
+
+        def len_of(e):
+            if isinstance(e, ast.Call) and isinstance(e.func, ast.Name) and e.func.id == "len" and len(e.args) == 1 and dotted(e.args[0]):
+                return e.args[0]
+            return None
+
+        one = len_of(a)
+        if one is not None:
+            return [one]
+        if isinstance(a, ast.Call) and isinstance(a.func, ast.Name) and a.func.id == "min" and len(a.args) >= 2 and all(len_of(x) is not None for x in a.args):
+            return [len_of(x) for x in a.args]
+        return None
+
+    def rewrite(stmts):
+        nonlocal changed
+        for st in stmts:
+            if not isinstance(st, (ast.FunctionDef, ast.AsyncFunctionDef, ast.ClassDef)):
+                for fld, lst in list(_blocks(st)):
+                    setattr(st, fld, rewrite(lst))
+                if isinstance(st, ast.Try):
+                    for h in st.handlers:
+                        h.body = rewrite(h.body)
+            if not (isinstance(st, ast.For) and isinstance(st.target, ast.Name)):
+                continue
+            seqs = seqs_of(st.iter)
+            if not seqs:
+                continue
+            i = st.target.id
+            texts = [norm(q) for q in seqs]
+            if len(set(texts)) != len(texts):
+                continue
+            body_mod = ast.Module(body=st.body + st.orelse, type_ignores=[])
+            ok = True
+            roots = {t.split(".")[0] for t in texts}
+            used = {t: 0 for t in texts}
+            for n in ast.walk(body_mod):
+                if isinstance(n, ast.Name) and isinstance(n.ctx, (ast.Store, ast.Del)) and (n.id == i or n.id in roots):
+                    ok = False
+                if isinstance(n, (ast.FunctionDef, ast.Lambda)) and any(isinstance(x, ast.Name) and (x.id == i or x.id in roots) for x in ast.walk(n)):
+                    ok = False
+            # every occurrence of a sequence in the body is `SEQ[i]` (Load)
+            sub_ids = {}
+            for n in ast.walk(body_mod):
+                if isinstance(n, ast.Subscript) and isinstance(n.ctx, ast.Load) and norm(n.value) in used and isinstance(n.slice, ast.Name) and n.slice.id == i:
+                    sub_ids[id(n)] = norm(n.value)
+                    used[norm(n.value)] += 1
+            if not ok or not all(used.values()):
+                continue
+            # a sequence mentioned otherwise (whole, other index, store) blocks the rewrite
+            covered = {id(x) for n in ast.walk(body_mod) if id(n) in sub_ids for x in ast.walk(n.value)}
+            for n in ast.walk(body_mod):
+                if isinstance(n, (ast.Name, ast.Attribute)) and norm(n) in used and id(n) not in covered:
+                    ok = False
+            if not ok:
+                continue
+            counter[0] += 1
+            names = {t: f"{t.split('.')[-1]}_item{counter[0]}" for t in texts}
+
+            class S(ast.NodeTransformer):
+                def visit_Subscript(self, n):
+                    if id(n) in sub_ids:
+                        return ast.copy_location(ast.Name(id=names[sub_ids[id(n)]], ctx=ast.Load()), n)
+                    return self.generic_visit(n)
+
+            st.body = [S().visit(b) for b in st.body]
+            st.orelse = [S().visit(b) for b in st.orelse]
+            if len(texts) == 1:
+                tgt = ast.Tuple(elts=[ast.Name(id=i, ctx=ast.Store()), ast.Name(id=names[texts[0]], ctx=ast.Store())], ctx=ast.Store())
+                it = ast.Call(func=ast.Name(id="enumerate", ctx=ast.Load()), args=[clone(seqs[0])], keywords=[])
+            else:
+                inner = ast.Tuple(elts=[ast.Name(id=names[t], ctx=ast.Store()) for t in texts], ctx=ast.Store())
+                tgt = ast.Tuple(elts=[ast.Name(id=i, ctx=ast.Store()), inner], ctx=ast.Store())
+                it = ast.Call(func=ast.Name(id="enumerate", ctx=ast.Load()), args=[ast.Call(func=ast.Name(id="zip", ctx=ast.Load()), args=[clone(q) for q in seqs], keywords=[])], keywords=[])
+            st.target = ast.copy_location(tgt, st.target)
+            st.iter = ast.copy_location(it, st.iter)
+            changed += 1
+        return stmts
+
+    fn.body = rewrite(fn.body)
+    if changed:
+        ast.fix_missing_locations(fn)
+        par = getattr(fn, "_parent", None)
+        set_parents(fn)
+        fn._parent = par
+    return changed
+
+
+def index_loops_repo(repo) -> int:
+    n = 0
+    for f in list(repo.funcs.values()):
+        if isinstance(f, FuncInfo) and f.outer is None:
+            n += index_loops_function(f.node)
+    return n
